@@ -331,6 +331,9 @@ func cmdCheck(args []string) {
 			maxPaths := ts.MaxPaths
 			if maxPaths == 0 {
 				maxPaths = 200000
+				if tier == "thorough" {
+					maxPaths = 3000000
+				}
 			}
 			if *maxPathsFlag > 0 {
 				maxPaths = *maxPathsFlag
